@@ -291,3 +291,30 @@ _patch("C15", "text", "the translator emits every method body as a frame of its 
        "the translator emits every method body as a frame of its own and C15_frames_ok evaluates the rule on them; C15_frame_rule_transfers "
        "carries the rule from a frame to every well-bracketed path that contains the frame's events in order with callee blocks (which give "
        "back every lock they take) in between.")
+
+# ---- session 4 additions ----
+_patch("C17", "text", "Parsing/printing of "
+       "package net/time is an explicit hypothesis (String() of an element parses back to it).",
+       "Parsing/printing of package net/time is an explicit hypothesis (String() of an element that Set can produce parses back to it); for the "
+       "forwarder option it is a theorem instead: config/forwarder.go's newResolver and String are modelled at the level of text (Model/FwdText.v: cut at "
+       "the first '=', ASCII TrimSpace, fqdn) and C17_forwarder_text proves, for every value newResolver accepts - whatever resolver.New accepts as an "
+       "address - that the printed rule is read back to the very same rule; C17_forwarder_criterion that the replacement criterion of Forwarders.Set is "
+       "the text before the first '=' of the stored line; C17_roundtrip_forwarders instantiates the store round trip with no assumption on the element "
+       "syntax. Engine fwdtext ties that model to the code: values with white space around '=' and the ends, empty and dotted domains, several '=', "
+       "through the real Forwarders.Set / String, Domain and printed form compared with the extracted parser, and - as a specification on the "
+       "implementation alone - String() set again must give the same rule and replace the one it came from.")
+_patch("C17", "note", "The hypothesis parse(show e)=e is environment (net, time) and is sampled by the engine.",
+       "The hypothesis parse(show e)=e stays environment for listen addresses and profile conditions (net.ParseCIDR / ParseMAC / interfaces) and is sampled by the engine; "
+       "for forwarders only the validity of the address text (resolver.New) is a parameter. strings.TrimSpace is modelled for ASCII (the engine's values are ASCII).")
+_patch("C17", "technique", "+ differential round-trip check on the real configuration code",
+       "+ text-level model of the forwarder syntax with a proved print/parse round trip + differential round-trip check on the real configuration code")
+_patch("C16", "text", "The start wrapper (run.go proxySvc.start)",
+       "Over histories of the service object (run.go proxySvc.Start / Stop / Restart, Model/Svc.v): what each call has to report and whether the "
+       "service holds the address afterwards, with somebody else occupying and freeing the address in between; C16_start_honest (success is reported "
+       "exactly when the address was free, and then it is held) and C16_lifecycle_coherent (a serving service and a foreign occupant never coexist "
+       "in a reachable state). Engine daemon -mode ops runs such histories on the real proxySvc (probe build of package main) and compares call by "
+       "call with the extracted svc_run. The start wrapper (run.go proxySvc.start)")
+_patch("C16", "technique", "+ generated start-wrapper parameters (translator)",
+       "+ life-cycle specification run against the real service object + generated start-wrapper parameters (translator)")
+_patch("C18", "text", "Tie:", "A file that disappears for a while and comes back unchanged leaves the table in sync through every lookup made meanwhile "
+       "(C18_away_and_back; the variant that empties the table but keeps the stamps is refuted by a three-event history). Tie:")
